@@ -55,3 +55,9 @@ func init() {
 		Assume: []string{"no symlinks, no unreadable directories (process runs as root)", "the lists' order is unspecified: compared as sets"},
 		Rule: "cases: every labeled forest up to the node bound with distinct roots x every prefix-closed subset of its node paths as directory state (exhaustive up to 6 nodes), leaves as files or directories, 0-3 extra files/directories inside roots, next to roots and nested, states produced by a real Mkdir with each extension list; x {strict, non-strict} x {explicit, default target} x {VerifyFromMarkdown, VerifyFromRoot, aliases}; plus seeded random forests; one evaluation = one real Verify whose verdict and parsed missing/extra lists are compared with the model for the first differing root, and the jail snapshot must be unchanged; distinct key = hash(forest, state, route, strictness, target form); every case is counted non-trivial (a directory state is materialised)"}
 }
+
+func init() {
+	props["C09"] = propCfg{Level: "exploration",
+		Assume: []string{"colour is disabled (fatih/color NoColor=true) so reports are compared as plain text", "the real run's name-rejection is observed on an empty target (only names can reject)"},
+		Rule: "cases: every labeled forest up to the node bound over {a.go,b} x extension lists, plus seeded random forests (a third with path-hostile names) through Output+dry-run, MkdirFromMarkdown+dry-run, MkdirFromRoot+dry-run (report captured from color.Output), Verify/Walk with a stray dry-run option, x {simple, massive}; one evaluation = one real dry-run call judged on the jail snapshot (must be unchanged), on its report (plain output + per-root counts equal to the model's, which are cross-checked against a real Mkdir's snapshot delta in a second jail) and on accept/reject agreement with the real run; distinct key = hash(forest, entry, mode, ext list, root); non-trivial = >= 2 nodes after merge"}
+}
